@@ -158,6 +158,19 @@ func genHaulTrace(r *RNG, mode string, probes bool) *Trace {
 			}
 		}
 	}
+	oneShot := false
+	if wide && mode == "wrap" && r.Chance(0.3) {
+		// stream lengths within 8 bytes of the capacities the buffer grows
+		// through when it is filled by large reads (2t+7 with t = length + one
+		// 32 KiB chunk: 65543, 196615, 458759), delivered in as few reads as the
+		// reader allows: the 7-byte read margin at the end of an exactly filled
+		// allocation
+		n = r.Pick(65536, 196608, 458752) + r.Intn(9)
+		if spec.BufferSize < n+16 {
+			spec.BufferSize = n + r.Range(16, 1<<16)
+		}
+		oneShot = true
+	}
 	bc := spec.defaults()
 	fam := r.pickStr("copyback", "copyback", "copyback256", "runs", "periodic", "iid4", "zeroheavy", "tandem")
 	if wide && r.Chance(0.4) {
@@ -168,7 +181,9 @@ func genHaulTrace(r *RNG, mode string, probes bool) *Trace {
 	bl := maxInt(1, bc.BlockSize)
 	if mode == "wrap" {
 		spec.Target = "wrap"
-		if r.Chance(0.5) {
+		if oneShot {
+			spec.Plan = &RPlan{EOFWithData: r.Chance(0.6)}
+		} else if r.Chance(0.5) {
 			spec.Plan = &RPlan{MaxChunk: 1 + r.Intn(1<<15), EOFWithData: r.Chance(0.5)}
 		}
 		for i := n/minInt(bl, maxInt(1, bc.BufferSize)) + 8; i > 0; i-- {
